@@ -1,6 +1,6 @@
 // Unit `assembler` (C08, C14, C16, C12): bookkeeping productions of the assembler
 // (src/lib/preprocessor/preprocessor.rs, generated), verbatim.
-use std::collections::{HashMap, HashSet};
+use std::collections::{BTreeSet, HashMap, HashSet};
 
 macro_rules! error {
     (  $s:expr,$e:expr,$err:expr ) => {{
